@@ -88,7 +88,25 @@ def setup_side(env, disk_files=None, root=None):
             else:
                 os.environ[k] = v
         S.fired('env_perturb')
+    import os as _os
+    for k in ('NO_COLOR', 'DEBUG', 'VERBOSE', 'CI', 'SOURCE_DATE_EPOCH', 'MININEC_DEBUG', 'LC_ALL', 'LC_TIME'):
+        _os.environ.pop(k, None)
+    for k, v in (env.get('environ_extra') or {}).items():
+        _os.environ[k] = v
+        S.fired('env_extra_variable')
+    g = env.get('gc')
+    if g:
+        import gc
+        if g == 'disabled':
+            gc.disable()
+        elif g == 'eager':
+            gc.set_threshold(40, 2, 2)
+        GC_BETWEEN[0] = g == 'between_ops'
+        S.fired('gc_mode_' + g)
     return se
+
+
+GC_BETWEEN = [False]
 
 
 def poison_value(env):
@@ -991,6 +1009,9 @@ def run_history(plan, start=0, disk_files=None, positions=None, apistates=None, 
         t = tasks[ti]
         op = t['ops'][pos[ti]]
         pos[ti] += 1
+        if GC_BETWEEN[0]:
+            import gc
+            gc.collect()
         kind = op[0]
         sched_sig.append((ti, kind))
         if last_task is not None and last_task != ti:
